@@ -86,7 +86,7 @@ func (this *Hnsw) Insert(id uuid.UUID, value math.Vector, metadata Metadata, ver
 			return err
 		}
 		verifYield("insert.first.stored", id)
-		if atomic.CompareAndSwapPointer(&this.entrypoint, nil, unsafe.Pointer(vertex)) {
+		if this.becomeEntrypoint(vertex) {
 			return nil
 		} else {
 			vertex.setLevel(vertexLevel)
@@ -100,6 +100,13 @@ func (this *Hnsw) Insert(id uuid.UUID, value math.Vector, metadata Metadata, ver
 	verifYield("insert.stored", id)
 
 	entrypoint := (*hnswVertex)(atomic.LoadPointer(&this.entrypoint))
+	for entrypoint == nil {
+		// Concurrent removals emptied the index after this vertex was stored
+		if this.becomeEntrypoint(vertex) {
+			return nil
+		}
+		entrypoint = (*hnswVertex)(atomic.LoadPointer(&this.entrypoint))
+	}
 	minDistance := this.space.Distance(vertex.vector, entrypoint.vector)
 	for l := entrypoint.level; l > vertex.level; l-- {
 		entrypoint, minDistance = this.greedyClosestNeighbor(vertex.vector, entrypoint, minDistance, l)
@@ -136,8 +143,15 @@ func (this *Hnsw) Insert(id uuid.UUID, value math.Vector, metadata Metadata, ver
 
 	verifYield("insert.linked", id)
 	entrypoint = (*hnswVertex)(atomic.LoadPointer(&this.entrypoint))
-	if entrypoint != nil && vertex.level > entrypoint.level {
+	if entrypoint == nil {
+		// The entrypoint this vertex was linked from is gone and nothing replaced it
+		this.becomeEntrypoint(vertex)
+	} else if vertex.level > entrypoint.level {
 		atomic.CompareAndSwapPointer(&this.entrypoint, this.entrypoint, unsafe.Pointer(vertex))
+		if vertex.isDeleted() {
+			// Removed concurrently, before it was promoted: its remover did not hand over
+			this.handOverEntrypoint(vertex)
+		}
 	}
 
 	return nil
@@ -172,36 +186,7 @@ func (this *Hnsw) Remove(id uuid.UUID) error {
 	}
 
 	verifYield("remove.unstored", id)
-	currEntrypoint := atomic.LoadPointer(&this.entrypoint)
-	if (*hnswVertex)(currEntrypoint) == vertex {
-		minDistance := math.MaxFloat
-		var closestNeighbor *hnswVertex = nil
-
-		for l := vertex.level; l >= 0; l-- {
-			vertex.edgeMutexes[l].RLock()
-			for neighbor, distance := range vertex.edges[l] {
-				if neighbor.isDeleted() {
-					continue
-				}
-				if distance < minDistance {
-					minDistance = distance
-					closestNeighbor = neighbor
-				}
-			}
-			vertex.edgeMutexes[l].RUnlock()
-
-			if closestNeighbor != nil {
-				break
-			}
-		}
-		if closestNeighbor == nil {
-			// The removed entrypoint had no live neighbor left. Fall back to any
-			// stored vertex so that the remaining items stay searchable.
-			closestNeighbor = this.fallbackEntrypoint()
-		}
-		verifYield("remove.handover", id)
-		atomic.CompareAndSwapPointer(&this.entrypoint, currEntrypoint, unsafe.Pointer(closestNeighbor))
-	}
+	this.handOverEntrypoint(vertex)
 
 	for l := vertex.level; l >= 0; l-- {
 		mMax := this.config.mMax
@@ -298,6 +283,73 @@ func (this *Hnsw) removeVertex(id uuid.UUID) (*hnswVertex, error) {
 	}
 
 	return nil, ItemNotFoundError
+}
+
+// Makes a stored vertex the entrypoint of an index that has none. Returns false if
+// another vertex became the entrypoint first.
+func (this *Hnsw) becomeEntrypoint(vertex *hnswVertex) bool {
+	if !atomic.CompareAndSwapPointer(&this.entrypoint, nil, unsafe.Pointer(vertex)) {
+		return false
+	}
+	if vertex.isDeleted() {
+		// Removed concurrently, before it was the entrypoint: its remover did not hand over
+		this.handOverEntrypoint(vertex)
+	}
+	return true
+}
+
+// If the removed vertex is the entrypoint, replaces it by a live vertex: its closest
+// live neighbor on its highest level or, if it has none, any stored vertex.
+func (this *Hnsw) handOverEntrypoint(vertex *hnswVertex) {
+	for {
+		currEntrypoint := atomic.LoadPointer(&this.entrypoint)
+		if (*hnswVertex)(currEntrypoint) != vertex {
+			return
+		}
+
+		minDistance := math.MaxFloat
+		var closestNeighbor *hnswVertex = nil
+
+		for l := vertex.level; l >= 0; l-- {
+			vertex.edgeMutexes[l].RLock()
+			for neighbor, distance := range vertex.edges[l] {
+				if neighbor.isDeleted() {
+					continue
+				}
+				if distance < minDistance {
+					minDistance = distance
+					closestNeighbor = neighbor
+				}
+			}
+			vertex.edgeMutexes[l].RUnlock()
+
+			if closestNeighbor != nil {
+				break
+			}
+		}
+		if closestNeighbor == nil {
+			// The removed entrypoint had no live neighbor left. Fall back to any
+			// stored vertex so that the remaining items stay searchable.
+			closestNeighbor = this.fallbackEntrypoint()
+		}
+		verifYield("remove.handover", vertex.id)
+		if !atomic.CompareAndSwapPointer(&this.entrypoint, currEntrypoint, unsafe.Pointer(closestNeighbor)) {
+			return
+		}
+		if closestNeighbor == nil {
+			// A vertex stored after the scan above did not see an empty index. Adopt it.
+			if stored := this.fallbackEntrypoint(); stored != nil {
+				this.becomeEntrypoint(stored)
+			}
+			return
+		}
+		if !closestNeighbor.isDeleted() {
+			return
+		}
+		// The chosen vertex was removed concurrently and its remover did not see it
+		// as the entrypoint. Hand over again, from it.
+		vertex = closestNeighbor
+	}
 }
 
 // Returns the stored vertex with the highest level (smallest id on ties)
